@@ -13,7 +13,7 @@ TECHNIQUE = ('property-based testing: grammar-generated decoded header lists (va
 RULE = ('cases: header list for a request / response / informational / trailer / pushed-request position built '
         'from a conformant skeleton plus 0..3 drawn defects over an adversarial byte alphabet (upper case, six '
         'ASCII whitespace bytes, empty names and values, NUL, 0x80+), encoded as raw HPACK literals, delivered to '
-        'a client or server under validate x normalise x header_encoding in {None, utf-8, latin-1}; non-trivial = exactly '
+        'a client or server under validate x normalise x header_encoding in {None, utf-8, latin-1}, at a client after the request was left open, ended, finished with trailers or answered with a 1xx, and with the switches set on conn.config only after the stream\'s first block; non-trivial = exactly '
         'one defect (one step from conformant) or conformant with >= 2 cookie fields; distinct by concrete trace')
 ASSUMPTIONS = ['dont-care zones (either verdict accepted): several Host fields, case variants of "trailers" in TE, '
                'plain CONNECT without :scheme/:path']
@@ -26,18 +26,33 @@ EVENT = {'request': 'RequestReceived', 'response': 'ResponseReceived',
          'push': 'PushedStreamReceived'}
 
 
-def deliver(s, kind, block, client):
-    """Bring the endpoint to the position and feed the block; returns outcome."""
+def deliver(s, kind, block, client, hist=None, late_cfg=None):
+    """Bring the endpoint to the position and feed the block; returns outcome.
+
+    hist: what the client did with its request before the block arrives (None: left it open, 'request-ended':
+    END_STREAM on the request, 'request-trailers': finished it with a trailer block, 'after-1xx': an informational
+    response has already arrived).  late_cfg: inbound switches the application sets on conn.config after the first
+    block on the stream has been received (the endpoint was created with them off)."""
+    def switch():
+        for k, v in (late_cfg or {}).items():
+            setattr(s.c.config, k, v)
     if kind == 'request':
+        switch()
         return s.feed(wire.headers(1, block))
+    if client:
+        s.call('send_headers', 1, REQ, end_stream=hist == 'request-ended')
+        if hist == 'request-trailers':
+            s.call('send_headers', 1, [(b'x-request-trailer', b'1')], end_stream=True)
     if kind == 'trailers':
         if client:
-            s.call('send_headers', 1, REQ)
             s.feed(wire.headers(1, s.hblock(RESP)))
         else:
             s.feed(wire.headers(1, s.hblock(REQ)))
+        switch()
         return s.feed(wire.headers(1, block, end_stream=True))
-    s.call('send_headers', 1, REQ)
+    if hist == 'after-1xx' or late_cfg:
+        s.feed(wire.headers(1, s.hblock([(b':status', b'103')])))
+    switch()
     if kind == 'push':
         return s.feed(wire.push_promise(1, 2, block))
     return s.feed(wire.headers(1, block))
@@ -60,13 +75,23 @@ def run_case(data):
     never = [ch.chance(24) for _ in fs]
     verdict, reasons = H.conformance(fs, kind)
     # a 1xx status turns a response position into an informational one and vice versa
-    s = Solo(client, validate_inbound_headers=validate, normalize_inbound_headers=normalize,
-             header_encoding=enc)
+    hist = ch.pick([None, None, 'request-ended', 'request-trailers', 'after-1xx']) if client else None
+    late_cfg = None
+    if ch.chance(24):
+        # the application switches validation / normalisation on after the stream's first block has arrived
+        late_cfg = {'validate_inbound_headers': validate, 'normalize_inbound_headers': normalize}
+        s = Solo(client, validate_inbound_headers=False, normalize_inbound_headers=False, header_encoding=enc)
+        r.labels.add('switches-set-after-first-block')
+    else:
+        s = Solo(client, validate_inbound_headers=validate, normalize_inbound_headers=normalize,
+                 header_encoding=enc)
     s.start()
     block = raw_block([(n, v, nv) for (n, v), nv in zip(fs, never)])
-    o = deliver(s, kind, block, client)
+    o = deliver(s, kind, block, client, hist, late_cfg)
+    if hist:
+        r.labels.add('history:' + hist)
     r.step(kind, 'client' if client else 'server', {'validate': validate, 'normalize': normalize, 'enc': enc},
-           fs, defects, verdict, reasons, o.brief())
+           'history', hist, 'late switches' if late_cfg else '', fs, defects, verdict, reasons, o.brief())
     r.labels.add(kind)
     r.labels.add('verdict-' + verdict)
     cookies = sum(1 for n, _ in fs if n == b'cookie')
